@@ -27,12 +27,13 @@ import (
 const rtPath = "github.com/facebookincubator/tacquito/vsyncrt"
 
 type fileSpec struct {
-	path   string
-	sync   bool
-	gostmt bool
-	now    bool
-	chans  bool
-	points []string // function names that get statement-level points
+	path    string
+	sync    bool
+	gostmt  bool
+	now     bool
+	chans   bool
+	points  []string // function names that get statement-level points
+	shallow bool     // points only between the top-level statements of those functions
 }
 
 func main() {
@@ -67,6 +68,7 @@ func main() {
 		{path: "cmds/server/loader/yaml/yaml.go", chans: true},
 		{path: "cmds/server/loader/json/json.go", chans: true},
 		// statement-level scheduling points where requests of different connections touch shared policy data
+		{path: "crypt.go", points: []string{"*"}, shallow: true}, // between the steps of crypt/read/write, not inside the byte loops
 		{path: "cmds/server/config/types.go", points: []string{"TrimSpace"}},
 		{path: "cmds/server/config/authorizers/stringy/command.go", points: []string{"*"}},
 		{path: "cmds/server/config/authorizers/stringy/session.go", points: []string{"*"}},
@@ -74,6 +76,24 @@ func main() {
 	// every other in-scope file: sync imports and go statements are rewritten automatically; channel operations
 	// outside the loader files are not supported (the instrumenter fails loudly)
 	specs = append(specs, autoSpecs(*repo, specs)...)
+	// sync imports and go statements are detected in every file, listed explicitly or not
+	for i := range specs {
+		f, err := parser.ParseFile(token.NewFileSet(), filepath.Join(*repo, specs[i].path), nil, 0)
+		if err != nil {
+			fail(specs[i].path + ": " + err.Error())
+		}
+		for _, im := range f.Imports {
+			if im.Path.Value == `"sync"` {
+				specs[i].sync = true
+			}
+		}
+		ast.Inspect(f, func(n ast.Node) bool {
+			if _, ok := n.(*ast.GoStmt); ok {
+				specs[i].gostmt = true
+			}
+			return true
+		})
+	}
 	for _, sp := range specs {
 		if err := rewrite(filepath.Join(*repo, sp.path), sp); err != nil {
 			fail(sp.path + ": " + err.Error())
@@ -252,7 +272,17 @@ func rewrite(path string, sp fileSpec) error {
 						pts = true
 					}
 				}
-				r.block(dd.Body, pts)
+				if pts && sp.shallow {
+					r.block(dd.Body, false)
+					var out []ast.Stmt
+					for _, st := range dd.Body.List {
+						r.needRT = true
+						out = append(out, &ast.ExprStmt{X: call(rt("P"))}, st)
+					}
+					dd.Body.List = out
+				} else {
+					r.block(dd.Body, pts)
+				}
 			}
 		case *ast.GenDecl:
 			if sp.chans {
